@@ -111,6 +111,7 @@ func (h *voteHistory) FrameHandled(s *Sim, node int, frame []byte, corrupted boo
 }
 func (h *voteHistory) Restarted(s *Sim, node int) { h.r.Probe("node-restarted") }
 func (h *voteHistory) Step(s *Sim)                {}
+func (h *voteHistory) Captured(s *Sim, node int, evs []interface{}) {}
 
 // drawConfig draws a NET configuration; swarm style: every run enables a random subset of
 // fault kinds at random rates.
